@@ -215,6 +215,14 @@ def bind(chk: Check, tier: str, seed: int):
                 r, order = session(kind, names, 1, plan, [], M)
                 recs.append(r)
                 meta.append((kind, "+".join(names), "drain=alt", "stagger1", "unsendable"))
+            # the unsendable message arrives while a multi-frame message is stalled between two of its frames, and another
+            # sender follows: the refusal touches nothing, the lock included
+            for names in (["multi", badname, "multi2"], ["multi", badname, "single"], ["multi", "multi2", badname, "single"]):
+                for stagger in (1, 2):
+                    plan = SendPlan(drain_mask="all")
+                    r, order = session(kind, names, stagger, plan, [], M)
+                    recs.append(r)
+                    meta.append((kind, "+".join(names), "drain=all", f"stagger{stagger}", "unsendable"))
     for names in (["single"], ["multi", "single"]):
         plan = SendPlan()
         r, order = session("actisense", names, 0, plan, [], M)
